@@ -310,3 +310,8 @@ impl Parent {
         Ok(result)
     }
 }
+
+// verification hook (guard: cfg(kani), set only by the Kani compiler): harnesses live in /verif/kani
+#[cfg(kani)]
+#[path = "/verif/kani/parent.rs"]
+mod verif_kani;
